@@ -144,8 +144,11 @@ def build_impl(variant="plain"):
         lib = os.path.join(bdir, "libiowow.a")
         if os.path.exists(lib):
             return bdir
-        for old in glob.glob(os.path.join(BUILD, "impl-%s-*" % variant)):
-            shutil.rmtree(old, ignore_errors=True)
+        # other checks / builders may still be running from an older build: keep recent ones, drop the rest
+        olds = sorted(glob.glob(os.path.join(BUILD, "impl-%s-*" % variant)), key=os.path.getmtime, reverse=True)
+        for old in olds[3:]:
+            if time.time() - os.path.getmtime(old) > 1800:
+                shutil.rmtree(old, ignore_errors=True)
         os.makedirs(os.path.join(bdir, "generated"), exist_ok=True)
         os.makedirs(os.path.join(bdir, "obj"), exist_ok=True)
         tmpl = open(os.path.join(REPO, "src", "tmpl", "iwcfg.h")).read()
@@ -272,8 +275,26 @@ def coq_properties(pid, timeout=600):
     return res
 
 
-def hygiene():
-    """no Admitted / admit / Axiom / Parameter / ... anywhere in the development"""
+def coq_closure(pid):
+    """the .v files Properties_<pid>.v depends on (transitively, within the IW root), plus itself"""
+    seen, todo = set(), [os.path.join(COQ, "Properties_%s.v" % pid)]
+    while todo:
+        f = todo.pop()
+        if f in seen or not os.path.exists(f):
+            continue
+        seen.add(f)
+        txt = re.sub(r"\(\*.*?\*\)", "", open(f).read(), flags=re.S)
+        for mod in re.findall(r"\bIW\.[A-Za-z0-9_.]*[A-Za-z0-9_]", txt):
+            cand = os.path.join(COQ, *mod.split(".")[1:]) + ".v"
+            if os.path.exists(cand):
+                todo.append(cand)
+    return sorted(seen)
+
+
+def hygiene(pid=None):
+    """no Admitted / admit / Axiom / Parameter / ... in the development (restricted to the dependency closure of
+    Properties_<pid>.v when pid is given, so that one family under construction cannot break another's check)"""
+    only = set(coq_closure(pid)) if pid else None
     bad = []
     pat = re.compile(r"\b(Admitted|admit|Axiom|Axioms|Parameter|Parameters|Conjecture|Admit Obligations|"
                      r"Unset Guard Checking|Unset Positivity Checking|Unset Universe Checking|bypass_check|"
@@ -282,6 +303,8 @@ def hygiene():
         for f in files:
             if f.endswith(".v"):
                 p = os.path.join(root, f)
+                if only is not None and p not in only:
+                    continue
                 txt = re.sub(r"\(\*.*?\*\)", "", open(p).read(), flags=re.S)
                 for i, l in enumerate(txt.split("\n")):
                     m = pat.search(l)
@@ -379,7 +402,7 @@ class Run:
     def proofs(self, pid=None, extra_note=""):
         """T1 + proof obligations of Properties_<pid>.v. Returns True when everything checks."""
         pid = pid or self.pid
-        bad = hygiene()
+        bad = hygiene(pid)
         if bad:
             self.broken.append("hygiene: " + "; ".join(bad[:5]))
         ok, msg = gen_facts()
